@@ -63,7 +63,7 @@ def descriptors(seed, tier):
         k = rng.choice([2, 3, 4, 16, 64, 256])
         n = rng.randint(700, 4000 if k < 16 else 12000)
         out.append(('rand', k, n, 10 ** 7 + i))
-    n_text = 24 if q else 1500
+    n_text = 24 if q else 500
     for i in range(n_text):
         out.append(('text', rng.choice([500, 2000, 8000, 20000, 30000] if q else [2000, 20000, 60000, 100000]), i))
     n_large = 3 if q else 500
@@ -361,10 +361,10 @@ def run(specfile):
                         pass
                 rec_extra = {'abort': c, 'logs': logs}
                 problems.append(('ABORT', 'sanitizer child %s' % c))
-                if st['child_aborts'] > spec.get('max_aborts', 150):
+                if st['child_aborts'] > spec.get('max_aborts', 8):
                     emit({'problem': problems, 'desc': list(d), 'sub': si, 'n': n, 'abort': c,
                           'data_hex': data.hex() if n <= 70000 else None, 'comp_hex': comp.hex() if len(comp) <= 70000 else None})
-                    emit({'fatal': 'more than %d sanitizer aborts in one worker' % spec.get('max_aborts', 150)})
+                    emit({'fatal': 'more than %d sanitizer aborts in one worker' % spec.get('max_aborts', 8)})
                     return 5
             else:
                 side = 'decompressor' if not problems else 'both'
